@@ -18,6 +18,13 @@ def item_attr(it, prim, i, mode):
         return f"#[literal({val(prim, lit[it])})]"
     if it == "lK":
         return "#[literal(K2)]"
+    ty = "i32" if prim == "int" else "StaticStr"
+    if it == "dl1":
+        return f"#[literal({val(prim, 55)})] #[literal({ty}| {val(prim, 1)})]"
+    if it == "dp13":
+        p13 = "1..=3" if prim == "int" else '"s1" | "s3"'
+        p50 = "50..=60" if prim == "int" else '"s50" | "s60"'
+        return f"#[pattern({p50})] #[pattern({ty}| {p13})]" + (f" #[into({{{val(prim, 70 + i)}}})]" if mode == "map" else "")
     pat = {"p13": "1..=3" if prim == "int" else '"s1" | "s3"', "p24": f"{val(prim, 2)} | {val(prim, 4)}", "ple1": "..=1", "pall": "_"}[it]
     return f"#[pattern({pat})]" + (f" #[into({{{val(prim, 70 + i)}}})]" if mode == "map" else "")
 
